@@ -233,6 +233,9 @@ class Type2Tag(Tag):
                         offset += 1
 
             self._capacity = get_capacity(raw_capacity, offset, skip_bytes)
+            if ndef is not None and len(ndef) > self._capacity:
+                log.debug("ndef message tlv exceeds the capacity")
+                return None
             self._ndef_tlv_offset = offset
             self._tag_memory = tag_memory
             self._skip_bytes = skip_bytes
